@@ -306,7 +306,7 @@ theorem reset_is_fresh_of_flag (id chans : Nat) (fn : Bool) (o : Obj) (hcfg : o.
   obtain ⟨c1, h1, h2⟩ := closeAll_ok o c
   refine ⟨c1, ?_, h2⟩
   unfold srcReset soxrClear
-  simp only [M.bind, h1]
+  simp only [hdead, Bool.and_false, Bool.false_eq_true, if_false, M.bind, h1]
   rw [hcfg, hr]
   simp only [Bool.not_false, if_true, M.pure, rcOf, Option.isSome_none, Bool.false_eq_true, if_false]
   congr 3
@@ -316,11 +316,12 @@ theorem reset_is_fresh_of_flag (id chans : Nat) (fn : Bool) (o : Obj) (hcfg : o.
 
 /-- with `RESET_ON_CLEAR` (ids 3, 4, 5), channels set and a ratio stored, `soxr_clear` goes on to
     `soxr_set_io_ratio(p, old ratio, 0)` on the object that still holds the old ratio. -/
-theorem reset_with_flag (o : Obj) (hr : o.cfg.reset = true) (hc : o.chans ≠ 0) (hz : isZero o.ioRatio = false) (c : Ctx) :
+theorem reset_with_flag (o : Obj) (hr : o.cfg.reset = true) (hc : o.chans ≠ 0) (hz : isZero o.ioRatio = false)
+    (hd : o.dead = false) (c : Ctx) :
     soxrClear o c = M.bind (closeAll o) (fun _ =>
       setIoRatio { o with error := none, inited := false, flushing := false } o.ioRatio 0) c := by
   unfold soxrClear
-  simp [hr, hc, hz]
+  simp [hr, hc, hz, hd]
 
 /-! ## totals: what the engine owes, then nothing
 
